@@ -215,7 +215,44 @@ def transplant(region, real_text):
             ok = (k < ne and e_toks[k] == "{" and k in e2r and (k - 1) in e2r and e2r[k] == e2r[k - 1] + 1)
             if not ok:
                 drop_group_at.add(k)
-    for (k, text, kind) in anns:
+    # the named return of the header - `-> ⟦(r: ⟧T⟦)⟧` - is a pair: it is placed around whatever return type the real header has
+    # (both halves or neither), like the header contract it is never dropped while the function still returns something
+    named_ret = {}
+    if body_k is not None:
+        for ai, (k, text, kind) in enumerate(anns):
+            if kind == "inline" and 0 < k <= body_k and e_toks[k - 1] == "->" and re.match(r"^\(\w+: ?$", text):
+                for aj in range(ai + 1, len(anns)):
+                    k2, text2, kind2 = anns[aj]
+                    if kind2 == "inline" and k2 <= body_k and text2.strip() == ")":
+                        # real header: `->` at depth 0 before the body's `{`
+                        d, arrow, rb = 0, None, None
+                        seen = False
+                        for j, t in enumerate(rt):
+                            if t.text == "fn":
+                                seen = True
+                            if t.text in ("(", "["):
+                                d += 1
+                            elif t.text in (")", "]"):
+                                d -= 1
+                            elif t.text == "->" and d == 0 and seen and arrow is None:
+                                arrow = j
+                            elif d == 0 and seen and t.text in ("{", "where"):
+                                rb = j
+                                break
+                        if arrow is not None and rb is not None and arrow < rb:
+                            named_ret[ai] = rt[arrow].end
+                            named_ret[aj] = rt[rb - 1].end
+                        else:
+                            named_ret[ai] = named_ret[aj] = None
+                        break
+                break
+    for ai, (k, text, kind) in enumerate(anns):
+        if ai in named_ret:
+            if named_ret[ai] is None:
+                dropped += 1
+            else:
+                inserts.setdefault(named_ret[ai], []).append((text, kind))
+            continue
         if kind == "line" and body_k is not None and k > body_k:
             if k in drop_group_at and (k < ne and e_toks[k] == "{"):
                 dropped += 1
